@@ -4,7 +4,7 @@ CONSTANTS
   S2 = {"none"}
   S3 = {"none"}
   Sorted = FALSE
-  CheckLowOrder = FALSE
+  CheckLowOrder = TRUE
   Junk = TRUE
 CONSTRAINT Mark
 POSTCONDITION Accepted
